@@ -11,7 +11,7 @@ package roaring
 // from 9 shape families (sparse edge values 0/1/63/64/4095/4096/65535, random
 // medium arrays, strides around 4096 values and 2048 runs, ranges, full, full
 // minus <= 3, "2 on 1 off" pairs around 2048 runs, long ranges around 4096,
-// {0,65535}); 15 construction flavours (slice / B-tree, optimized, decoded from
+// {0,65535}); 16 construction flavours (slice / B-tree, optimized, decoded from
 // Pilosa bytes and left mapped, remapped, frozen, cloned, imported, decoded from
 // hand-encoded official bytes, trimmed after optimize, result of a union).
 //
@@ -539,7 +539,7 @@ type rkBM struct {
 var rkFlavours = []string{
 	"slice", "file", "slice+opt", "file+opt", "slice<-pilosa", "file<-pilosa", "file<-pilosa-unopt",
 	"file-remapped", "frozen-of-slice", "clone-of-mapped", "imported-slice", "imported-file",
-	"slice<-official", "trimmed-after-opt", "union-result",
+	"slice<-official", "trimmed-after-opt", "union-result", "intersect-result",
 }
 
 func rkTypes(b *Bitmap) string {
@@ -660,6 +660,24 @@ func (r *rkRun) build(flv string, vals []uint64) (x *rkBM) {
 			x.b = NewBitmap(rkCopy(rkUnion(vals, extra))...)
 			x.b.Optimize()
 			x.b.DirectRemoveN(extra...)
+		case "intersect-result":
+			// the operands differ only in containers next to those of vals: the result
+			// holds vals plus empty containers (Intersect keeps a container it emptied)
+			x.cls = "derived"
+			keys := map[uint64]bool{}
+			for _, v := range vals {
+				keys[v>>16] = true
+			}
+			var ea, eb []uint64
+			for k := range keys {
+				if !keys[k+1] && k < maxContainerKey {
+					ea = append(ea, (k+1)<<16|1)
+					eb = append(eb, (k+1)<<16|2)
+				}
+			}
+			a, b := NewBitmap(rkCopy(rkNorm(append(ea, vals...)))...), NewBitmap(rkCopy(rkNorm(append(eb, vals...)))...)
+			x.keep = append(x.keep, a, b)
+			x.b = a.Intersect(b)
 		default: // union-result
 			x.cls = "derived"
 			h := len(vals) / 2
@@ -1533,6 +1551,18 @@ func (r *rkRun) replay(h *rkHist, when string) {
 		})
 		r.checkReads(P, "replayed", when+" decoded snapshot+log", d, h.want)
 		r.cmp(bytes.Equal(data, orig), P, "replay-modifies-file-bytes", func() string { return when + ": reading the decoded bitmap wrote into the file bytes" })
+		// the same file decoded again into the same bitmap (a fragment re-reads its
+		// file into the storage bitmap it already has): same set, same counters
+		if err := d.UnmarshalBinary(data); err == nil {
+			got2 := d.Slice()
+			r.cmp(rkEq(got2, h.want), P, "redecode-set", func() string { return when + ": second decode of snapshot+log into the same bitmap: " + rkFirstDiff(got2, h.want) })
+			ops2, opN2 := d.Ops()
+			r.cmp(ops2 == lops && opN2 == lopN, P, "redecode-counters", func() string {
+				return fmt.Sprintf("%s: second decode into the same bitmap gives (ops,opN) = (%d,%d), first decode and live bitmap (%d,%d)", when, ops2, opN2, lops, lopN)
+			})
+		} else {
+			r.cmp(false, P, "redecode-error", func() string { return when + ": second UnmarshalBinary(snapshot+log) into the same bitmap: " + err.Error() })
+		}
 	})
 }
 
@@ -2183,9 +2213,9 @@ func (r *rkRun) shiftSpecials() {
 						vals = append(vals, (base+gap)<<16|v)
 					}
 					vals = rkNorm(vals)
-					for fi, flv := range []string{"slice", "file+opt", "slice<-pilosa"} {
+					for fi, flv := range []string{"slice", "file+opt", "slice<-pilosa", "intersect-result"} {
 						combo++
-						if !r.thorough && combo%3 != fi {
+						if !r.thorough && combo%4 != fi && !(fi == 3 && gap == 2) {
 							continue // quick tier: one flavour per combination, rotating
 						}
 						r.seq = []string{fmt.Sprintf("b := %s {key %d: %s; key %d: %s}", flv, base, l, base+gap, n), "b.Shift(1)"}
@@ -2345,7 +2375,7 @@ func TestRcheckRoaring(t *testing.T) {
 	}
 	res := &rkResult{Harness: "roaring", Failures: []rkFailure{}, Samples: []interface{}{},
 		Rule:  "an evaluation is one comparison of a value returned by the real code with the model; a case is distinct and non-trivial when it is the first to reach a combination (operation or read phase, construction flavour, container encodings of the operands / of the bitmap after the step); counted by that combination key",
-		Bound: fmt.Sprintf("seed %d; container keys %v; 9 shape families per container (edge values 0/1/63/64/4095/4096/65535, strides and pairs around 4096 values and 2048 runs, ranges, full, full minus <=3); flavours %v; phase A %d sets x 5 flavours (all reads + WriteTo/UnmarshalBinary round trip); phase B %d x 9 encoding pairs + %d random triples (24 set operations each, then isolation under source/derived mutation, remap, close); phase C %d histories x %d mutations (2/3 with operation log and replay); phase D %d random official-format encodings + 14 fixed ones, each decoded 3 times and imported set/clear; Shift carry matrix (5 x 12 container shapes x gap 1..2 x 3 flavours); phase W %d histories x %d mutations on bitmaps with 600..2100 containers", seed, rkKeysAll, rkFlavours, nReads, nVar, nRand, nSeq, steps, nOff, nWide, stepsWide)}
+		Bound: fmt.Sprintf("seed %d; container keys %v; 9 shape families per container (edge values 0/1/63/64/4095/4096/65535, strides and pairs around 4096 values and 2048 runs, ranges, full, full minus <=3); flavours %v; phase A %d sets x 5 flavours (all reads + WriteTo/UnmarshalBinary round trip); phase B %d x 9 encoding pairs + %d random triples (24 set operations each, then isolation under source/derived mutation, remap, close); phase C %d histories x %d mutations (2/3 with operation log and replay); phase D %d random official-format encodings + 14 fixed ones, each decoded 3 times and imported set/clear; Shift carry matrix (5 x 12 container shapes x gap 1..2 x 4 flavours); phase W %d histories x %d mutations on bitmaps with 600..2100 containers", seed, rkKeysAll, rkFlavours, nReads, nVar, nRand, nSeq, steps, nOff, nWide, stepsWide)}
 	r := &rkRun{t: t, res: res, rng: rand.New(rand.NewSource(seed)), cover: map[string]bool{}, thorough: thorough}
 	defer debug.SetGCPercent(debug.SetGCPercent(400))
 	start := time.Now()
